@@ -17,7 +17,13 @@ import (
 func strip(v ssa.Value) ssa.Value { return stripV(v, nil) }
 
 func stripV(v ssa.Value, visiting map[*ssa.Phi]bool) ssa.Value {
-	for {
+	for hops := 0; ; hops++ {
+		if hops < 40 {
+			if w, ok := throughHelper(v); ok {
+				v = w
+				continue
+			}
+		}
 		switch x := v.(type) {
 		case *ssa.ChangeType:
 			v = x.X
@@ -314,7 +320,12 @@ func guardsOf(b *ssa.BasicBlock) []Guard {
 			out = append(out, flattenCond(iff.Cond, false, iff)...)
 		}
 	}
-	// also the block itself when b is a successor reached only via one edge is covered above
+	// a transparent helper runs under the conditions of its call site (transparent.go)
+	if fn := b.Parent(); isHelper(fn) {
+		if site := helperCallSite(fn); site != nil && site.Block() != nil && site.Parent() != fn {
+			out = append(out, guardsOf(site.Block())...)
+		}
+	}
 	return out
 }
 
